@@ -293,7 +293,16 @@ class ServiceRun:
                         return self.coro.__await__()
 
                 def teardown_action() -> Any:
-                    return Pending(inner_async())
+                    if sid % 2:
+                        return Pending(inner_async())
+                    import types
+
+                    # ... or a generator-based coroutine, which is not even an instance of collections.abc.Awaitable
+                    @types.coroutine
+                    def generator_based() -> Any:
+                        return (yield from inner_async().__await__())
+
+                    return generator_based()
             elif form in ("object", "unhashable_object"):
                 inner_action = teardown_action
 
